@@ -218,6 +218,17 @@ def _run_bodies(sh, rec):
         case = bodies.make_case(rng, kind, **opts)
         g, body = case.grid, case.body
         bodies.refresh_grid(g)
+        sib = None
+        if j % 3 == 1:
+            # a SECOND live grid of the same class with the same structural arguments (element count, density / marker number) around
+            # ANOTHER body is built and updated between this grid's own update and its transfers (a carpet of equal rods evaluated
+            # in turn): per-grid state (moment arms, cached frames) must belong to the grid, not to a pool shared by equal sizes
+            try:
+                sib = bodies.make_case(rng, kind, **{k: case.meta[k] for k in ("n_elems", "density", "num") if k in case.meta})
+                bodies.refresh_grid(sib.grid)
+                rec.count("grids_evaluated_after_update_of_a_sibling_grid")
+            except Exception as e:
+                rec.note(f"sibling grid failed: {type(e).__name__}: {e}")
         N, dim = g.num_lag_nodes, case.dim
         rec.count("bodies"); rec.count(f"bodies_{kind}")
         if dim == 2 and case.family == "rigid" and body.director_collection[2, 2, 0] < 0:
